@@ -102,7 +102,8 @@ def run(ck):
     # finished when the fork is taken (schedules in which thread 1 runs to completion first are part of every campaign)
     plan.append(('file-childthreads-k1', va, False, 'file', 11, 1, 1))
     plan.append(('devlog-childthreads-k1', va, False, 'devlog', 11, 1, 1))
-    plan.append(('hashed-file-n3-d1-k1', va, False, 'file', 1, 1, 'hashed', 3))
+    if not q:
+        plan.append(('hashed-file-n3-d1-k1', va, False, 'file', 1, 1, 'hashed', 3))      # ~35 000 executions since the libc time-zone lock is modelled: thorough tier
     # snoopy's open/write/writev/close are scheduling points too: the fork is also taken while the other thread is between the
     # system calls of its output (whatever it holds there - a descriptor, a lock on it - is inherited by the child)
     vio = S.build_thr('c10-schedio-asan', san='asan', io=True)
